@@ -477,9 +477,14 @@ class SpecEval:
 
     def b_heapof(self, args):
         """heapof(T, f): the current field map of field f of struct type T as a value (sort Array Int <field sort>)"""
-        if args[0][0] != 'id' or args[1][0] != 'id':
+        tn = None
+        if args[0][0] == 'id':
+            tn = args[0][1]
+        elif args[0][0] == 'field' and args[0][1][0] == 'id':
+            tn = args[0][1][1] + '.' + args[0][2]
+        if tn is None or args[1][0] != 'id':
             self.err('heapof(Type, field) expects identifiers')
-        sts = resolve_type(self.prog, self.pkg, ('name', args[0][1]))
+        sts = resolve_type(self.prog, self.pkg, ('name', tn))
         path = self.find_field(sts, args[1][1])
         if not path or len(path) != 1:
             self.err('heapof: no direct field %s in %s' % (args[1][1], sts))
